@@ -50,7 +50,7 @@ def opJunit : P String := do
   let (skip, xskip) : String × String :=
     match s.payload, r.2 with
     | .single p, some j =>
-      if Spec.domainsEqual pf s p.dom then
+      if s.readRes == .ok && s.readRef == .ok && Spec.domainsEqual pf s p.dom then
         let want := Spec.expectedSkipped s p
         let got := Spec.skippedNames j
         -- equal as multisets (names are duplicate-free inside hyp): mutual inclusion + equal length
